@@ -222,13 +222,18 @@ func (sr *seqRunner) runPath(trNo int, ops []GenOp) error {
 	if env.vdef == nil {
 		env.vdef = map[string]string{}
 	}
-	x.swapDDoc = func(coll string) error {
+	x.swapDDoc = func(coll, h string) error {
 		nv := "B"
 		if env.vdef[coll] == "B" {
 			nv = "A"
 		}
 		env.vdef[coll] = nv
-		return env.colls[coll].PutDDoc(context.Background(), "vd", viewDDocVariant(nv))
+		// (the views are always queried through the first handle; the replacement may come through the second)
+		c := env.colls[coll]
+		if h == "h2" {
+			c = env.colls2[coll]
+		}
+		return c.PutDDoc(context.Background(), "vd", viewDDocVariant(nv))
 	}
 	// every path starts with variant A of the design document
 	for _, c := range collNames {
